@@ -133,7 +133,7 @@ Theorem C05_no_residue_refbelow_refuted : exists c,
   /\ exists t, lookup 0 (sub_of (o_tree (oo_z1 (model_obs c)))) = Some t /\ is_empty (k_dz c) t = true.
 Proof.
   exists {| k_n := 2; k_dz := 0; k_da := 0; k_z := Node []; k_a := Node [(0, Node [(1, Leaf 5)])];
-            k_U := [false; false]; k_shape := [2; 3]; k_est := false; k_alone := false;
+            k_U := [false; false]; k_shape := [2; 3]; k_est := false; k_alone := false; k_zU := [false; true];
             k_body := [([0], ARefBelow [1] (WAssign 0))] |}.
   vm_compute. split; [reflexivity|]. split; [reflexivity|].
   exists (Node [(1, Leaf 0)]). split; reflexivity.
@@ -240,7 +240,7 @@ Print Assumptions C05_throughout.
 (* the oracle evaluated on the implementation's observation accepts the model's own observation,
    for every well-formed case: all of source / offers+shown values / result / raw structure /
    reference-in-snapshot / well-formed and rank lists mirroring at every yield and at the end /
-   active range *)
+   active range / z's rank attributes untouched *)
 Theorem C05_model_meets_spec : forall c,
   c05_wf c = true -> holds c05_checker c (model c05_checker c) = true.
 Proof. exact c05_model_holds. Qed.
@@ -252,7 +252,7 @@ Example C05_nonvacuous :
   let c := {| k_n := 2; k_dz := 0; k_da := 0;
               k_z := Node [(1, Node [(0, Leaf 5); (2, Leaf 0)]); (2, Node [])];
               k_a := Node [(0, Node [(1, Leaf 1)]); (1, Node [(0, Leaf 1); (2, Leaf 2)]); (2, Node [(1, Leaf 3)])];
-              k_U := [false; true]; k_shape := [4; 3]; k_est := false; k_alone := false;
+              k_U := [false; true]; k_shape := [4; 3]; k_est := false; k_alone := false; k_zU := [false; true];
               k_body := [([0], ADescend); ([1], ADescend); ([2], ADescend);
                          ([1; 0], AWrite (WAdd 1)); ([1; 1], AWrite (WAssign 7));
                          ([1; 2], AWrite (WAssign 0)); ([2; 1], AWrite (WAssign 0))] |} in
